@@ -100,6 +100,8 @@ FnResult(fn, arg, n) ==
     [] r.r = "counter" -> Ok(I(n))
     [] r.r = "echo" -> Ok(arg)
     [] r.r = "tagged" -> Ok(VVec(<<arg, I(n)>>))
+    [] r.r = "double" -> IF arg.t = "Int" /\ IntInRange(ZMul(arg.n, ZFromInt(2))) THEN Ok(VInt(ZMul(arg.n, ZFromInt(2))))
+                         ELSE FnErr(fn.name, S("not a small int"))
 
 \* a call with an evaluated argument: [o, st]
 DoCall(env, st, name, arg) ==
